@@ -1,41 +1,111 @@
 (* C18 — Synthesised dataclass constructors equal the ones CPython generates.  Property theorems only.
-   Model/C18_dataclass.v: [g_*] is extensions/dataclasses.py (after the repairs of findings F1, F5, F8, F9),
-   [py_*] is CPython 3.12's dataclasses module.
-   A module is a table of classes in definition order; [py_eval_table t = Some e] says CPython executes it. *)
-From Coq Require Import List Arith Bool.
-From Verif Require Import Lib.Sexp Model.C18_dataclass Model.C18_session Proofs.C18_dataclass Proofs.C18_session.
+
+   [py_*] (Model/C18_dataclass.v) is CPython 3.12's dataclasses module; a module is a table of classes in definition
+   order; [py_eval_table t = Some e] says CPython executes it.
+   [gm_* m] (Model/C18_modes.v) is extensions/dataclasses.py in one of the three shapes its merging code can have:
+     FlatFilterFirst  (the code before the repairs of findings C18-F3 and C18-F6),
+     FlatFilterLast   (F3 repaired), Accumulated (F3 and F6 repaired: _dataclass_fields).
+   [current_mode] (Gen/C18_flags.v) is the shape of the tree under test, read off its source on every run; the theorems
+   are proved for every shape, so they hold for whichever one is found.
+   Model/C18_machine.v is the extension as a state machine over on_package_loaded events; Model/C18_presented.v is
+   Class.parameters. *)
+From Coq Require Import List Arith Bool String.
+From Verif Require Import Lib.Sexp Model.C18_dataclass Model.C18_modes Model.C18_machine Model.C18_presented Gen.C18_flags
+  Proofs.C18_dataclass Proofs.C18_modes Proofs.C18_machine Proofs.C18_presented Proofs.C18_top Proofs.C18_order.
 Import ListNotations.
 Open Scope list_scope. Open Scope nat_scope.
 
-(* For ALL class tables (any number of classes, bodies, MRO lists): a decorated class without a hand-written __init__ gets
-   from Griffe exactly the __init__ CPython generates (parameter names, order, kind, required-ness; or none at all, for
-   @dataclass(init=False)) unless it satisfies one of the five decidable known-gap predicates G2 G3 G4 G6 G7
-   (findings C18-F2, F3, F4, F6, F7). *)
-Theorem C18_init_eq_cpython_modulo_known : forall t e i c,
-  py_eval_table t = Some e -> nth_error t i = Some c ->
+(* ===============================================================================================================
+   THE CONSTRUCTOR.  For ALL class tables (any number of classes, bodies, MRO lists) and every shape m of the merging
+   code: a decorated class without a hand-written __init__ gets from Griffe exactly the __init__ CPython generates
+   (parameter names, order, kind, required-ness; or none at all, for @dataclass(init=False)) unless it satisfies one of
+   the decidable known-gap predicates that remain in that shape:
+     FlatFilterFirst  G2 G3 G4 G6 G7      FlatFilterLast  G2 G4 G6 G7      Accumulated  G2 G4 G7
+   (gaps_m masks the others).  [mode_ok] asks, in the Accumulated shape only, that the MRO lists be those of a Python
+   module (they point to earlier classes and contain the MRO of each member): wf_mro. *)
+Theorem C18_init_eq_cpython_by_shape : forall m t e i c,
+  py_eval_table t = Some e -> mode_ok m t = true -> nth_error t i = Some c ->
   decorated c = true -> c_hw c = None ->
-  known_gap t e i c = false ->
-  g_init_member t c = py_init_member e i c.
-Proof. exact init_eq_cpython_modulo_known. Qed.
+  known_gap_m m t e i c = false ->
+  gm_init_member m t i c = py_init_member e i c.
+Proof. exact init_eq_cpython_by_mode. Qed.
+Print Assumptions C18_init_eq_cpython_by_shape.
+(* ... in particular for the shape the tree under test has *)
+Theorem C18_init_eq_cpython_modulo_known : forall t e i c,
+  py_eval_table t = Some e -> mode_ok current_mode t = true -> nth_error t i = Some c ->
+  decorated c = true -> c_hw c = None ->
+  known_gap_m current_mode t e i c = false ->
+  gm_init_member current_mode t i c = py_init_member e i c.
+Proof. exact (init_eq_cpython_by_mode current_mode). Qed.
 Print Assumptions C18_init_eq_cpython_modulo_known.
+(* the FlatFilterFirst shape is the per-class model of Model/C18_dataclass.v *)
+Theorem C18_flat_filter_first_is_g : forall t i c, nth_error t i = Some c ->
+  gm_init_member FlatFilterFirst t i c = g_init_member t c.
+Proof. exact gm_FFF. Qed.
+Print Assumptions C18_flat_filter_first_is_g.
+(* the recursion of _dataclass_fields (Accumulated) is modelled with explicit fuel S (length t); on well-formed tables
+   any fuel above the class index gives the same dictionary: the out-of-fuel value is never observed *)
+Theorem C18_accumulated_fuel_suffices : forall t own, wf_mro t = true ->
+  forall f1 f2 j, j < f1 -> j < f2 -> accum t own f1 j = accum t own f2 j.
+Proof. exact accum_fuel. Qed.
+Print Assumptions C18_accumulated_fuel_suffices.
 
 (* The unqualified statement is false of the faithful model (and of the code: the same witnesses are replayed on the
-   implementation on every run).  Each witness satisfies exactly one gap predicate ([G2; G3; G4; G6; G7]), so none is redundant. *)
-Theorem C18_init_eq_cpython_refuted_F2 : refutes w2 1 [true; false; false; false; false].
-Proof. exact refuted_F2. Qed.
+   implementation on every run).  Each witness satisfies exactly one gap predicate ([G2; G3; G4; G6; G7]).
+   F2, F4, F7 in every shape; F3 while the filter comes first; F6 until every base contributes its accumulated dictionary. *)
+Theorem C18_init_eq_cpython_refuted_F2 : forall m, refutes_m m w2 1 [true; false; false; false; false].
+Proof. exact refuted_m_F2. Qed.
 Print Assumptions C18_init_eq_cpython_refuted_F2.
-Theorem C18_init_eq_cpython_refuted_F3 : refutes w3 1 [false; true; false; false; false].
-Proof. exact refuted_F3. Qed.
+Theorem C18_init_eq_cpython_refuted_F3 : refutes_m FlatFilterFirst w3 1 [false; true; false; false; false].
+Proof. exact refuted_m_F3. Qed.
 Print Assumptions C18_init_eq_cpython_refuted_F3.
-Theorem C18_init_eq_cpython_refuted_F4 : refutes w4 1 [false; false; true; false; false].
-Proof. exact refuted_F4. Qed.
+Theorem C18_init_eq_cpython_refuted_F4 : forall m, refutes_m m w4 1 [false; false; true; false; false].
+Proof. exact refuted_m_F4. Qed.
 Print Assumptions C18_init_eq_cpython_refuted_F4.
-Theorem C18_init_eq_cpython_refuted_F6 : refutes w6 3 [false; false; false; true; false].
-Proof. exact refuted_F6. Qed.
+Theorem C18_init_eq_cpython_refuted_F6 : forall m, accumulates m = false -> refutes_m m w6 3 [false; false; false; true; false].
+Proof. exact refuted_m_F6. Qed.
 Print Assumptions C18_init_eq_cpython_refuted_F6.
-Theorem C18_init_eq_cpython_refuted_F7 : refutes w7 0 [false; false; false; false; true].
-Proof. exact refuted_F7. Qed.
+Theorem C18_init_eq_cpython_refuted_F7 : forall m, refutes_m m w7 0 [false; false; false; false; true].
+Proof. exact refuted_m_F7. Qed.
 Print Assumptions C18_init_eq_cpython_refuted_F7.
+(* the same witnesses are INSIDE the theorem in the repaired shapes, and equal *)
+Theorem C18_repaired_F3 : known_gap_m FlatFilterLast w3 (env_of w3) 1 (cls_at w3 1) = false /\
+  gm_init_member FlatFilterLast w3 1 (cls_at w3 1) = Synth [mkp 1 PK true] /\
+  gm_init_member FlatFilterFirst w3 1 (cls_at w3 1) = Synth [mkp 0 PK true; mkp 1 PK true].
+Proof. exact repaired_F3. Qed.
+Print Assumptions C18_repaired_F3.
+Theorem C18_repaired_F6 : wf_mro w6 = true /\ known_gap_m Accumulated w6 (env_of w6) 3 (cls_at w6 3) = false /\
+  gm_init_member Accumulated w6 3 (cls_at w6 3) = Synth [mkp 0 PK false; mkp 1 PK true] /\
+  gm_init_member FlatFilterFirst w6 3 (cls_at w6 3) = Synth [mkp 0 PK true; mkp 1 PK true].
+Proof. exact repaired_F6. Qed.
+Print Assumptions C18_repaired_F6.
+(* a diamond with overrides in both branches, a ClassVar override and a field(init=False) override: G3 and G6 hold for
+   it in the FlatFilterFirst shape (and the constructors differ), none in the Accumulated shape (and they are equal) *)
+Theorem C18_accumulated_example : exists e, py_eval_table dia2 = Some e /\ wf_mro dia2 = true /\
+  known_gap_m Accumulated dia2 e 3 (cls_at dia2 3) = false /\ known_gap_m FlatFilterFirst dia2 e 3 (cls_at dia2 3) = true /\
+  gm_init_member Accumulated dia2 3 (cls_at dia2 3) = py_init_member e 3 (cls_at dia2 3) /\
+  gm_init_member FlatFilterFirst dia2 3 (cls_at dia2 3) <> py_init_member e 3 (cls_at dia2 3).
+Proof. exact dia2_acc. Qed.
+Print Assumptions C18_accumulated_example.
+
+(* THE ORDERING THEOREM (Accumulated shape): for EVERY hierarchy (any inheritance graph, any field lists, any placement
+   of kw_only / KW_ONLY / InitVar / field(init=False) / ClassVar) the NAMES, ORDER and KINDS of the synthesised parameters
+   are CPython's; no hypothesis on overrides or on the field forms (not even G2: finding F2 only changes required-ness).
+   What remains are the two findings that add or remove names (F4: instance attributes of a hand-written __init__, F7:
+   annotated name re-bound by a property) and the well-formedness of the MRO lists. *)
+Theorem C18_order_eq_cpython_accumulated : forall t e i c,
+  py_eval_table t = Some e -> wf_mro t = true -> nth_error t i = Some c ->
+  decorated c = true -> c_hw c = None ->
+  G4 t c = false -> G7 t c = false ->
+  shape_member (gm_init_member Accumulated t i c) = shape_member (py_init_member e i c).
+Proof. exact order_eq_Acc. Qed.
+Print Assumptions C18_order_eq_cpython_accumulated.
+(* non-vacuity: the F2 witness has CPython's names, order and kinds although the constructors differ (required-ness) *)
+Theorem C18_order_example : wf_mro w2 = true /\ G4 w2 (cls_at w2 1) = false /\ G7 w2 (cls_at w2 1) = false /\
+  gm_init_member Accumulated w2 1 (cls_at w2 1) <> py_init_member (env_of w2) 1 (cls_at w2 1) /\
+  shape_member (gm_init_member Accumulated w2 1 (cls_at w2 1)) = Synth [mkp 0 PK false; mkp 1 PK false].
+Proof. exact order_F2. Qed.
+Print Assumptions C18_order_example.
 
 (* Single inheritance (the MRO of every class is its base followed by the base's MRO; undecorated classes may sit in
    between): CPython's accumulated __dataclass_fields__ IS the flat reverse-MRO collection, so the multiple-inheritance
@@ -44,34 +114,39 @@ Theorem C18_single_inheritance_no_F6 : forall t e, py_eval_table t = Some e -> l
   forall i c, nth_error t i = Some c -> decorated c = true -> G6 t e i c = false.
 Proof. exact single_inheritance_flat. Qed.
 Print Assumptions C18_single_inheritance_no_F6.
-(* ... and the constructor equality needs only the four syntactic gap predicates. *)
-Theorem C18_init_eq_cpython_single_inheritance : forall t e i c,
+(* ... such tables are well-formed ... *)
+Theorem C18_single_inheritance_wf : forall t, linear t = true -> wf_mro t = true.
+Proof. exact linear_wf. Qed.
+Print Assumptions C18_single_inheritance_wf.
+(* ... and the constructor equality needs only the syntactic gap predicates (G3 only while the filter comes first). *)
+Theorem C18_init_eq_cpython_single_inheritance : forall m t e i c,
   py_eval_table t = Some e -> linear t = true -> nth_error t i = Some c ->
   decorated c = true -> c_hw c = None ->
-  G2 t c = false -> G3 t c = false -> G4 t c = false -> G7 t c = false ->
-  g_init_member t c = py_init_member e i c.
-Proof. exact init_eq_cpython_single_inheritance. Qed.
+  G2 t c = false -> (filter_after m = false -> G3 t c = false) -> G4 t c = false -> G7 t c = false ->
+  gm_init_member m t i c = py_init_member e i c.
+Proof. exact init_eq_single_inheritance_by_mode. Qed.
 Print Assumptions C18_init_eq_cpython_single_inheritance.
 
-(* The hypotheses are satisfiable together: a five-class single-inheritance table with every ingredient (InitVar,
-   default_factory, KW_ONLY sentinel, ClassVar, property, undecorated class in between, kw_only=True decorator, override,
-   init=False field, hand-written __init__ in an ancestor) that is gap-free and accepted. *)
-Theorem C18_gap_free_example : exists e, py_eval_table ok1 = Some e /\ known_gap ok1 e 4 (cls_at ok1 4) = false /\ linear ok1 = true /\
-  g_init_member ok1 (cls_at ok1 4) =
+(* The hypotheses are satisfiable together, in every shape: a five-class single-inheritance table with every ingredient
+   (InitVar, default_factory, KW_ONLY sentinel, ClassVar, property, undecorated class in between, kw_only=True
+   decorator, override, init=False field, hand-written __init__ in an ancestor) that is gap-free and accepted. *)
+Theorem C18_gap_free_example : forall m, exists e, py_eval_table ok1 = Some e /\ mode_ok m ok1 = true /\
+  known_gap_m m ok1 e 4 (cls_at ok1 4) = false /\ linear ok1 = true /\
+  gm_init_member m ok1 4 (cls_at ok1 4) =
     Synth [mkp 0 PK false; mkp 2 PK true; mkp 10 PK true; mkp 11 PK true; mkp 1 KO true; mkp 3 KO true; mkp 8 KO false].
-Proof. exact ok1_gap_free. Qed.
+Proof. exact ok1_gap_free_m. Qed.
 Print Assumptions C18_gap_free_example.
 
 (* A hand-written __init__ is never replaced (by either system). *)
-Theorem C18_handwritten_init_kept : forall t e i c l, c_hw c = Some l ->
-  g_init_member t c = Handwritten /\ py_init_member e i c = Handwritten.
-Proof. exact handwritten_init_kept. Qed.
+Theorem C18_handwritten_init_kept : forall m t e i c l, c_hw c = Some l ->
+  gm_init_member m t i c = Handwritten /\ py_init_member e i c = Handwritten.
+Proof. exact handwritten_init_kept_m. Qed.
 Print Assumptions C18_handwritten_init_kept.
 
 (* Non-dataclass classes get none. *)
-Theorem C18_non_dataclass_untouched : forall t e i c, decorated c = false -> c_hw c = None ->
-  g_init_member t c = Absent /\ py_init_member e i c = Absent.
-Proof. exact non_dataclass_untouched. Qed.
+Theorem C18_non_dataclass_untouched : forall m t e i c, decorated c = false -> c_hw c = None ->
+  gm_init_member m t i c = Absent /\ py_init_member e i c = Absent.
+Proof. exact non_dataclass_untouched_m. Qed.
 Print Assumptions C18_non_dataclass_untouched.
 
 (* A class inheriting a dataclass is labelled as one (unconditionally since the repair of C18-F9) ... *)
@@ -83,61 +158,88 @@ Theorem C18_label_eq_is_dataclass : forall t c, g_label t c = py_is_dataclass t 
 Proof. exact label_eq_is_dataclass. Qed.
 Print Assumptions C18_label_eq_is_dataclass.
 
-(* ---------------------------------------------------------------------------------------------------------------
-   The constructor Griffe PRESENTS for a class (Class.parameters: the class' own __init__ member, else the first one
-   along its MRO) against the one CPython resolves (cls.__init__ along __mro__ = inspect.signature(cls)); this is the
-   only constructor an undecorated subclass of a dataclass, or a @dataclass(init=False) class, has.
+(* ===============================================================================================================
+   THE PRESENTED CONSTRUCTOR.  Class.parameters (the class' own __init__ member, else the first one along its MRO)
+   against the one CPython resolves (cls.__init__ along __mro__ = inspect.signature(cls)); this is the only
+   constructor an undecorated subclass of a dataclass, or a @dataclass(init=False) class, has.
    The class that PROVIDES it is the same for both, for every accepted table, gaps or not ... *)
-Theorem C18_presented_provider_eq : forall t e i c, py_eval_table t = Some e ->
-  option_map fst (g_presented t i c) = option_map fst (py_presented t e i c).
+Theorem C18_presented_provider_eq : forall m t e i c, py_eval_table t = Some e ->
+  option_map fst (gm_presented m t i c) = option_map fst (py_presented t e i c).
 Proof. exact presented_provider_eq. Qed.
 Print Assumptions C18_presented_provider_eq.
 (* ... and the constructors are equal when every class that can provide it (the class and its MRO) is outside the known gaps. *)
-Theorem C18_presented_eq_cpython_modulo_known : forall t e i c, py_eval_table t = Some e ->
-  (forall j b, In j (i :: c_mro c) -> nth_error t j = Some b -> decorated b = true -> c_hw b = None -> known_gap t e j b = false) ->
-  g_presented t i c = py_presented t e i c.
+Theorem C18_presented_eq_cpython_modulo_known : forall m t e i c, py_eval_table t = Some e -> mode_ok m t = true ->
+  (forall j b, In j (i :: c_mro c) -> nth_error t j = Some b -> decorated b = true -> c_hw b = None -> known_gap_m m t e j b = false) ->
+  gm_presented m t i c = py_presented t e i c.
 Proof. exact presented_eq_modulo_known. Qed.
 Print Assumptions C18_presented_eq_cpython_modulo_known.
 (* non-vacuity: a diamond whose undecorated join takes the constructor of its SECOND base (the first is a plain subclass) *)
-Theorem C18_presented_example : exists e, py_eval_table dia = Some e /\
-  (forall j b, In j (3 :: c_mro (cls_at dia 3)) -> nth_error dia j = Some b -> decorated b = true -> c_hw b = None -> known_gap dia e j b = false) /\
-  g_presented dia 3 (cls_at dia 3) = Some (2, Synth [mkp 0 PK false; mkp 1 PK true; mkp 2 PK true]).
+Theorem C18_presented_example : forall m, exists e, py_eval_table dia = Some e /\ mode_ok m dia = true /\
+  (forall j b, In j (3 :: c_mro (cls_at dia 3)) -> nth_error dia j = Some b -> decorated b = true -> c_hw b = None -> known_gap_m m dia e j b = false) /\
+  gm_presented m dia 3 (cls_at dia 3) = Some (2, Synth [mkp 0 PK false; mkp 1 PK true; mkp 2 PK true]).
 Proof. exact dia_presented. Qed.
 Print Assumptions C18_presented_example.
 
-(* ---------------------------------------------------------------------------------------------------------------
-   The extension as the state machine it is (Model/C18_session.v): ONE extension object serves any number of
-   on_package_loaded events; the parameters of a class are memoised for the life of the process, InitVar members are
+(* ===============================================================================================================
+   THE EXTENSION AS THE STATE MACHINE IT IS (Model/C18_machine.v): ONE extension object serves any number of
+   on_package_loaded events; the entries of a class are memoised for the life of the process, InitVar members are
    deleted after a class was handled, classes are walked in member order (a subclass before or after its bases; the
    bases possibly from a package loaded by an earlier event), canonical paths seen during the same event are skipped.
    For EVERY history of events (any number, any walk orders, any interleaving of packages and of versions of one
    package) in which one event never meets the same canonical path twice (a package is a tree), every class an event
    has walked over carries exactly the stateless result of the per-class model: the state never leaks. *)
-Theorem C18_session_transparent : forall t paths evs,
+Theorem C18_session_transparent : forall m t paths evs,
   (forall ev, In ev evs -> NoDup (map (fun j => nth j paths 0) ev)) ->
   forall ev j c, In ev evs -> In j ev -> nth_error t j = Some c ->
-  s_member (session t paths evs) j c = g_init_member t c /\ s_labelled (session t paths evs) j c = g_label t c.
+  s_member (session m t paths evs) j c = gm_init_member m t j c /\ s_labelled (session m t paths evs) j c = g_label t c.
 Proof. exact session_transparent. Qed.
 Print Assumptions C18_session_transparent.
-(* hence, after any such history, the __init__ member is CPython's, modulo the known gaps *)
-Theorem C18_session_eq_cpython_modulo_known : forall t e paths evs,
-  py_eval_table t = Some e ->
+(* hence, after any such history, the __init__ member is CPython's, modulo the known gaps of the shape *)
+Theorem C18_session_eq_cpython_modulo_known : forall m t e paths evs,
+  py_eval_table t = Some e -> mode_ok m t = true ->
   (forall ev, In ev evs -> NoDup (map (fun j => nth j paths 0) ev)) ->
   forall ev j c, In ev evs -> In j ev -> nth_error t j = Some c ->
-  decorated c = true -> c_hw c = None -> known_gap t e j c = false ->
-  s_member (session t paths evs) j c = py_init_member e j c.
+  decorated c = true -> c_hw c = None -> known_gap_m m t e j c = false ->
+  s_member (session m t paths evs) j c = py_init_member e j c.
 Proof. exact session_eq_cpython_modulo_known. Qed.
 Print Assumptions C18_session_eq_cpython_modulo_known.
 (* The statement is sensitive to the two pieces of state: with the memo dropped at each event a dataclass of a later
    package loses the InitVar pseudo-fields of a base loaded earlier (the base is recomputed from pruned members) ... *)
-Theorem C18_session_needs_the_memo :
-  s_member (session two_pkgs [0; 1] [[0]; [1]]) 1 (cls_at two_pkgs 1) = Synth [mkp 0 PK false; mkp 1 PK true; mkp 2 PK true] /\
-  s_member (session_gen true false two_pkgs [0; 1] [[0]; [1]]) 1 (cls_at two_pkgs 1) = Synth [mkp 0 PK false; mkp 2 PK true].
-Proof. split; [exact (proj1 session_two_pkgs) | exact cache_is_load_bearing]. Qed.
+Theorem C18_session_needs_the_memo : forall m,
+  s_member (session m two_pkgs [0; 1] [[0]; [1]]) 1 (cls_at two_pkgs 1) = Synth [mkp 0 PK false; mkp 1 PK true; mkp 2 PK true] /\
+  s_member (session_gen m true false two_pkgs [0; 1] [[0]; [1]]) 1 (cls_at two_pkgs 1) = Synth [mkp 0 PK false; mkp 2 PK true].
+Proof. intros m. split; [exact (session_two_pkgs m) | exact (cache_is_load_bearing m)]. Qed.
 Print Assumptions C18_session_needs_the_memo.
 (* ... and with the set of seen paths kept on the extension the second version of a package is skipped altogether. *)
-Theorem C18_session_needs_a_fresh_seen_set :
-  s_member (session two_versions [7; 7] [[0]; [1]]) 1 (cls_at two_versions 1) = Synth [mkp 0 PK false; mkp 1 PK true] /\
-  s_member (session_gen false true two_versions [7; 7] [[0]; [1]]) 1 (cls_at two_versions 1) = Absent.
+Theorem C18_session_needs_a_fresh_seen_set : forall m,
+  s_member (session m two_versions [7; 7] [[0]; [1]]) 1 (cls_at two_versions 1) = Synth [mkp 0 PK false; mkp 1 PK true] /\
+  s_member (session_gen m false true two_versions [7; 7] [[0]; [1]]) 1 (cls_at two_versions 1) = Absent.
 Proof. exact processed_must_be_per_event. Qed.
 Print Assumptions C18_session_needs_a_fresh_seen_set.
+
+(* ===============================================================================================================
+   THE TRANSLATED RULES (Gen/C18_flags.v, regenerated from extensions/dataclasses.py on every run) ARE THE MODEL'S:
+   the keyword-only rule, the default rule, the grouping of _reorder_parameters, the direction of the MRO walk, the
+   canonical paths matched. *)
+Open Scope string_scope.
+Theorem C18_translated_rules_are_the_model :
+  (forall v kw, (if kind_is_kw_only (g_kw_true v) kw (g_kw_false v) then KO else PK) = (if g_kw_true v || (kw && negb (g_kw_false v)) then KO else PK)) /\
+  (forall v, default_present (is_field_call v) (match v with VField a => fa_factory a | _ => false end)
+                             (match v with VField a => fa_default a | _ => false end) (has_value v) = g_default v) /\
+  (forall l, flat_map (fun g => group_filter g l) reorder_groups = partition_params l) /\
+  mro_walk_reversed = true /\
+  recognised_paths = ["dataclasses.dataclass"; "dataclasses.field"; "dataclasses.KW_ONLY"; "dataclasses.InitVar"].
+Proof.
+  split; [exact kind_rule_is_model|]. split; [exact default_rule_is_model|]. split; [exact reorder_is_model|].
+  split; [exact walk_is_model | exact paths_are_model].
+Qed.
+Print Assumptions C18_translated_rules_are_the_model.
+(* ... and so is the skeleton around them: GriffeLoader._post_load fires on_package_loaded after expand_exports and
+   expand_wildcards; the built-in extension is always loaded; on_package_loaded is `_apply_recursively(pkg, set())` alone
+   (a fresh set of seen paths per event, no other state on the extension); the class branch of _apply_recursively is
+   label, guard on "__init__", synthesise, delete InitVar members, nested classes - the order of Model/C18_machine.v : process. *)
+Theorem C18_translated_skeleton_is_the_model :
+  post_load_steps = [PExports; PWildcards; PEvent] /\ builtin_extension_always_loaded = true /\
+  seen_set_fresh_per_event = true /\ class_steps = [CLabel; CGuard; CInit; CPrune; CNested].
+Proof. exact skeleton_is_model. Qed.
+Print Assumptions C18_translated_skeleton_is_the_model.
